@@ -1593,19 +1593,25 @@ def m_iter_adapter(I, st, args, dty, site):
             return outs
     if it is not None and it[0] == 'it' and it[1] == 'seq' and site['callee'].endswith('::map') and len(it[2]) - it[3] <= 12 and clo is not None and clo[0] in ('clo', 'fn'):
         # map over a known short sequence with a closure that has exactly one outcome per element and changes nothing: the mapped sequence
-        s = st.clone()
-        mapped = []
+        # (a closure with a few outcomes per element, e.g. `v.unwrap_or(0) * k`, gives one mapped sequence per combination, at most 64)
+        work = [(st.clone(), [])]
         for e in it[2][it[3]:]:
-            arg = ('r', I.alloc(s, e)) if it[4] else e
-            iv0 = dict(s.iv)
-            r = I.call_closure(s, clo, [arg], site)
-            if r is None or len(r) != 1 or r[0][0].dead:
-                mapped = None
+            nxt = []
+            for s, mapped in work:
+                arg = ('r', I.alloc(s, e)) if it[4] else e
+                r = I.call_closure(s, clo, [arg], site)
+                if r is None:
+                    nxt = None
+                    break
+                for s2, v in r:
+                    if not s2.dead:
+                        nxt.append((s2, mapped + [v]))
+            if nxt is None or not nxt or len(nxt) > 64:
+                work = None
                 break
-            s, v = r[0]
-            mapped.append(v)
-        if mapped is not None:
-            return [(s, ('it', 'seq', tuple(mapped), 0, False))]
+            work = nxt
+        if work:
+            return [(s, ('it', 'seq', tuple(mapped), 0, False)) for s, mapped in work]
     s = st.clone()
     if it is not None and it[0] == 'it' and it[1] == 'vec':
         vec_sync(I, s, it[2])
